@@ -71,7 +71,7 @@ static void second_life(void) {
    vp_mark();
    {
       zoo::World* a = new zoo::World; a->concrete = true; a->printable = true;
-      Tracker ta; zoo::build(*a, 3, ta); zoo::build(*a, total - 1, ta); ta.snapshot();
+      Tracker ta; zoo::build(*a, 3, ta); a->reg = a->reg->make_subregion(); zoo::build(*a, total - 1, ta); ta.snapshot();
       const ipr::Translation_unit& ua = a->unit; Fingerprint f; fingerprint<ipr::Namespace>(&ua.global_namespace(), f); fingerprint<ipr::Name>(&ua.global_namespace().name(), f);
       { Printer pp { a->lx, osa }; vp_outcome([&] { pp << a->unit; }); }
       a->lx.decompose(a->lx.static_specifier() | a->lx.inline_specifier()); a->lx.decompose(a->lx.const_qualifier());
